@@ -2,7 +2,9 @@
 
 Tie A (regeneration): FFI.init_once (src/cffi/api.py) is flattened by a fail-closed shape-matching
 driver into a control-flow graph over the instruction set of coq/C26/Model.v and written to
-coq/C26/Gen.v (`py_prog`); the theorems of C26/Props.v are re-checked against it on every run.
+coq/C26/Gen.v (`py_prog`); ffi_init_once (src/c/ffi_obj.c) by an ordered call-site extractor (`c_prog_gen`);
+plus boolean facts about the creation of the cache and of the locks (`gen_*`), from which the initial state
+of the implementation-level theorems is built.  The theorems of C26/Props.v are re-checked on every run.
 Tie B (correspondence): the real Python implementation is driven through every maximal schedule
 of the model (2 threads: all; 3 threads: all up to renaming of threads in quick, all in thorough)
 with every shared operation (cache read / setdefault / store, lock acquire / release, entry and
@@ -196,17 +198,311 @@ def flatten(fn):
     return prog, [nd["src"] for nd in nodes]
 
 
-def gen_text(prog, srcs, origin):
-    lines = ["(* C26/Gen.v — %s.  Do not edit: rewritten by tools/props/c26.py regen() on every run. *)" % origin,
-             "From Coq Require Import List.", "Import ListNotations.", "From Cffi Require Import C26.Model.", "",
-             "Definition py_prog : prog := ["]
+def _fmt_prog(name, prog, srcs):
+    lines = ["Definition %s : prog := [" % name]
     for i, (ins, src) in enumerate(zip(prog, srcs)):
         args = " ".join({True: "true", False: "false"}.get(a, str(a)) if isinstance(a, bool) else str(a)
                         for a in ins[1:])
         lines.append("  (* %2d *) %s%s   (* %s *)" % (i, (ins[0] + " " + args).strip(),
                                                      ";" if i + 1 < len(prog) else "", src.replace("*)", "* )")))
     lines.append("].")
+    return lines
+
+
+def gen_text(prog, srcs, origin, cgen=None, facts=None):
+    lines = ["(* C26/Gen.v — %s.  Do not edit: rewritten by tools/props/c26.py regen() on every run. *)" % origin,
+             "From Coq Require Import List.", "Import ListNotations.", "From Cffi Require Import C26.Model.", ""]
+    lines += _fmt_prog("py_prog", prog, srcs)
+    if cgen is not None:
+        lines += ["", "(* the step program of src/c/ffi_obj.c ffi_init_once, from its ordered call sites (c26.py c_extract);",
+                  "   %s *)" % cgen["origin"].replace("*)", "* )").replace('"', "'")]
+        lines += _fmt_prog("c_prog_gen", cgen["prog"], cgen["srcs"]) if cgen["prog"] else \
+            ["Definition c_prog_gen : prog := []."]
+    if facts is not None:
+        lines += ["", "(* facts about the constructors and the locks; false = the source no longer has the expected shape",
+                  "   (the reason is in the comment): C26/Proofs3.v impl_init_is_init / c_prog_gen_ok need them all true *)"]
+        for name in FACT_NAMES:
+            ok, why = facts[name]
+            lines.append("Definition %s : bool := %s.   (* %s *)" % (name, "true" if ok else "false",
+                                                                    why.replace("*)", "* )").replace('"', "'")))
     return "\n".join(lines) + "\n"
+
+
+FACT_NAMES = ["gen_py_cache_init_empty", "gen_py_cache_assigned_once", "gen_py_lock_is_thread_lock",
+              "gen_c_cache_init_empty", "gen_c_lock_is_thread_lock", "gen_c_no_return_while_locked"]
+
+
+def py_init_facts():
+    """Facts about how api.py creates the init_once cache and its locks; fail closed: anything that does not have
+    exactly the expected shape gives False with the reason."""
+    out = {}
+    src = os.path.join(vlib.REPO, "src", "cffi")
+    try:
+        tree = py2coq.parse_source(os.path.join(src, "api.py"))
+        init = py2coq.find_function(tree, "__init__", cls="FFI")
+        once = py2coq.find_function(tree, "init_once", cls="FFI")
+    except (py2coq.Untranslatable, OSError, SyntaxError) as e:
+        for k in FACT_NAMES[:3]:
+            out[k] = (False, "api.py: %s" % e)
+        return out
+    # (1) the initialiser in FFI.__init__
+    stores = [st for st in ast.walk(init) if isinstance(st, (ast.Assign, ast.AugAssign, ast.AnnAssign))
+              and any(isinstance(n, ast.Attribute) and n.attr == "_init_once_cache" and isinstance(n.ctx, ast.Store)
+                      for t in (st.targets if isinstance(st, ast.Assign) else [st.target]) for n in ast.walk(t))]
+    if len(stores) != 1:
+        out["gen_py_cache_init_empty"] = (False, "FFI.__init__ assigns self._init_once_cache %d times" % len(stores))
+    else:
+        st = stores[0]
+        ok = isinstance(st, ast.Assign) and len(st.targets) == 1 \
+            and py2coq.shape(st.targets[0]) == py2coq.shape(ast.parse("self._init_once_cache = 0").body[0].targets[0]) \
+            and isinstance(st.value, ast.Dict) and not st.value.keys and not st.value.values \
+            and st in init.body
+        out["gen_py_cache_init_empty"] = (ok, "api.py:%d `%s`%s" % (st.lineno, ast.unparse(st).split("\n")[0],
+                                                                   "" if ok else " is not `self._init_once_cache = {}` "
+                                                                   "at the top level of FFI.__init__"))
+    # (2) nothing else in the package binds, deletes or passes around the cache
+    uses = []
+    try:
+        for fn in sorted(os.listdir(src)):
+            if not fn.endswith(".py"):
+                continue
+            text = open(os.path.join(src, fn)).read()
+            if "_init_once_cache" not in text:
+                continue
+            t2 = tree if fn == "api.py" else ast.parse(text)
+            inside_once = {id(n) for n in ast.walk(once)} if fn == "api.py" else set()
+            inside_init = {id(n) for n in ast.walk(init)} if fn == "api.py" else set()
+            for n in ast.walk(t2):
+                if isinstance(n, ast.Attribute) and n.attr == "_init_once_cache":
+                    if id(n) in inside_once and isinstance(n.ctx, ast.Load):
+                        continue         # the accesses the flattening driver translates (cache[tag], .setdefault)
+                    if id(n) in inside_init and isinstance(n.ctx, ast.Store):
+                        continue         # the initialiser, checked above
+                    uses.append("%s:%d" % (fn, n.lineno))
+                elif isinstance(n, ast.Constant) and isinstance(n.value, str) and "_init_once_cache" in n.value \
+                        and not (isinstance(n.value, str) and "\n" in n.value):
+                    uses.append("%s:%d (string)" % (fn, n.lineno))
+        ok = not uses and len(stores) == 1
+        out["gen_py_cache_assigned_once"] = (ok, "no other binding/use of _init_once_cache in src/cffi/*.py" if ok
+                                             else "other uses of _init_once_cache: " + ", ".join(uses[:5]))
+    except (OSError, SyntaxError) as e:
+        out["gen_py_cache_assigned_once"] = (False, str(e))
+    # (3) allocate_lock is _thread.allocate_lock (a new lock is unlocked), and api.py never rebinds it
+    try:
+        imp = [st for st in tree.body if isinstance(st, ast.ImportFrom) and st.module == "lock" and st.level == 1
+               and [(a.name, a.asname) for a in st.names] == [("allocate_lock", None)]]
+        rebind = [n.lineno for n in ast.walk(tree) if (isinstance(n, ast.Name) and n.id == "allocate_lock"
+                                                         and not isinstance(n.ctx, ast.Load))
+                  or (isinstance(n, (ast.FunctionDef, ast.ClassDef)) and n.name == "allocate_lock")
+                  or (isinstance(n, ast.arg) and n.arg == "allocate_lock")
+                  or (isinstance(n, ast.alias) and (n.asname or n.name) == "allocate_lock" and n.name != "allocate_lock")]
+        ltree = py2coq.parse_source(os.path.join(src, "lock.py"))
+        want = ast.parse("if sys.version_info < (3,):\n    pass\nelse:\n    try:\n        from _thread import allocate_lock\n"
+                         "    except ImportError:\n        from _dummy_thread import allocate_lock\n").body[0]
+        top = [st for st in ltree.body if not isinstance(st, ast.Import)]
+        ok3 = len(top) == 1 and isinstance(top[0], ast.If) and py2coq.shape(top[0].test) == py2coq.shape(want.test) \
+            and [py2coq.shape(x) for x in top[0].orelse] == [py2coq.shape(x) for x in want.orelse]
+        ok = len(imp) == 1 and not rebind and ok3
+        out["gen_py_lock_is_thread_lock"] = (ok, "api.py `from .lock import allocate_lock`, never rebound; lock.py takes it "
+                                             "from _thread" if ok else "allocate_lock: import %d, rebound at %r, lock.py "
+                                             "shape ok=%s" % (len(imp), rebind[:3], ok3))
+    except (py2coq.Untranslatable, OSError, SyntaxError) as e:
+        out["gen_py_lock_is_thread_lock"] = (False, "lock.py: %s" % e)
+    return out
+
+
+def _strip_c_comments(text):
+    """remove /* */ and // comments, keeping every newline (line numbers stay valid); string literals kept"""
+    out, i, n = [], 0, len(text)
+    while i < n:
+        c = text[i]
+        if c == '"' or c == "'":
+            j = i + 1
+            while j < n and text[j] != c:
+                j += 2 if text[j] == "\\" else 1
+            out.append(text[i:j + 1])
+            i = j + 1
+        elif text.startswith("/*", i):
+            j = text.find("*/", i + 2)
+            j = n if j < 0 else j + 2
+            out.append("".join(ch if ch == "\n" else " " for ch in text[i:j]))
+            i = j
+        elif text.startswith("//", i):
+            j = text.find("\n", i)
+            j = n if j < 0 else j
+            out.append(" " * (j - i))
+            i = j
+        else:
+            out.append(c)
+            i += 1
+    return "".join(out)
+
+
+def _block_end(text, open_pos):
+    """position just after the brace matching text[open_pos] == '{' (no braces occur in this function's strings)"""
+    depth = 0
+    for i in range(open_pos, len(text)):
+        if text[i] == "{":
+            depth += 1
+        elif text[i] == "}":
+            depth -= 1
+            if depth == 0:
+                return i + 1
+    raise py2coq.Untranslatable("unbalanced braces")
+
+
+C_SITES = [            # name, regex  (on the comment-stripped text of ffi_init_once)
+    ("getitemref", r"PyDict_GetItemRef\(cache,\s*tag,\s*&tup\)"),
+    ("tupnull", r"if\s*\(tup\s*==\s*NULL\)\s*\{"),
+    ("alloclock", r"lock\s*=\s*PyThread_allocate_lock\(\)"),
+    ("packfalse", r"tup\s*=\s*PyTuple_Pack\(2,\s*Py_False,\s*x\)"),
+    ("setdefault", r"tup\s*=\s*PyObject_CallMethod\(cache,\s*\"setdefault\",\s*\"OO\",\s*tag,\s*x\)"),
+    ("res_tup1", r"res\s*=\s*PyTuple_GET_ITEM\(tup,\s*1\)"),
+    ("test_tup", r"if\s*\(PyTuple_GET_ITEM\(tup,\s*0\)\s*==\s*Py_True\)\s*\{"),
+    ("return_res", r"return\s+res\s*;"),
+    ("begin_allow", r"Py_BEGIN_ALLOW_THREADS"),
+    ("acquire", r"PyThread_acquire_lock\(lock,\s*WAIT_LOCK\)\s*;"),
+    ("end_allow", r"Py_END_ALLOW_THREADS"),
+    ("getitem", r"x\s*=\s*PyDict_GetItem\(cache,\s*tag\)\s*;"),
+    ("test_x", r"if\s*\(x\s*!=\s*NULL\s*&&\s*PyTuple_GET_ITEM\(x,\s*0\)\s*==\s*Py_True\)\s*\{"),
+    ("res_x1", r"res\s*=\s*PyTuple_GET_ITEM\(x,\s*1\)"),
+    ("else", r"\}\s*else\s*\{"),
+    ("callf", r"res\s*=\s*PyObject_CallFunction\(func,\s*\"\"\)\s*;"),
+    ("resnotnull", r"if\s*\(res\s*!=\s*NULL\)\s*\{"),
+    ("packtrue", r"tup\s*=\s*PyTuple_Pack\(2,\s*Py_True,\s*res\)"),
+    ("setitem", r"PyDict_SetItem\(cache,\s*tag,\s*tup\)"),
+    ("release", r"PyThread_release_lock\(lock\)\s*;"),
+]
+C_ORDER = ["getitemref", "tupnull", "alloclock", "packfalse", "setdefault", "res_tup1", "test_tup", "return_res",
+           "begin_allow", "acquire", "end_allow", "getitem", "test_x", "res_x1", "else", "callf", "resnotnull",
+           "packtrue", "setitem", "release", "return_res"]
+
+
+def c_extract():
+    """ffi_obj.c: the ordered call sites of ffi_init_once -> the step program; the creation of init_once_cache.
+    Returns (cgen dict(prog, srcs, origin, status), facts).  Fail closed."""
+    import re
+    U = py2coq.Untranslatable
+    facts = {}
+    cgen = dict(prog=[], srcs=[], origin="", status=None)
+    path = os.path.join(vlib.REPO, "src", "c", "ffi_obj.c")
+    try:
+        text = _strip_c_comments(open(path).read())
+    except OSError as e:
+        for k in FACT_NAMES[3:]:
+            facts[k] = (False, str(e))
+        cgen.update(origin="EMPTY: %s" % e, status="fallback: %s" % e)
+        return cgen, facts
+    line = lambda pos: text.count("\n", 0, pos) + 1
+    # ---- creation of the cache: every mention of init_once_cache in the file
+    ment = [re.sub(r"\s+", " ", text[text.rfind("\n", 0, m.start()) + 1:text.find("\n", m.start())].strip())
+            for m in re.finditer(r"\binit_once_cache\b", text)]
+    want = ["PyObject *init_once_cache;", "ffi->init_once_cache = NULL;", "Py_XDECREF(ffi->init_once_cache);",
+            "cache = self->init_once_cache;", "self->init_once_cache = cache = PyDict_New();"]
+    okc = ment == want
+    if okc:
+        m = re.search(r"cache\s*=\s*self->init_once_cache;\s*if\s*\(cache\s*==\s*NULL\)\s*\{\s*self->init_once_cache\s*=\s*"
+                      r"cache\s*=\s*PyDict_New\(\);\s*\}", text)
+        okc = m is not None
+    facts["gen_c_cache_init_empty"] = (okc, "ffi_obj.c: init_once_cache is NULL in ffi_internal_new, then PyDict_New() on first "
+                                       "use, nothing else touches it" if okc else
+                                       "mentions of init_once_cache changed: %r" % (ment,))
+    # ---- the function
+    try:
+        m = re.search(r"^static PyObject \*ffi_init_once\(FFIObject \*self, PyObject \*args, PyObject \*kwds\)\s*\{", text, re.M)
+        if m is None or len(re.findall(r"\bffi_init_once\s*\(", text)) != 1:
+            raise U("ffi_init_once not found exactly once")
+        start = m.end() - 1
+        end = _block_end(text, start)
+        body = text[start:end]
+        toks = []
+        for name, rx in C_SITES:
+            for mm in re.finditer(rx, body):
+                toks.append((mm.start(), mm.end(), name))
+        toks.sort()
+        # a generic "} else {" also matches inside; only those listed count, all must be in order, each exactly as often
+        names = [t[2] for t in toks]
+        if names != C_ORDER:
+            raise U("call sites of ffi_init_once are %r" % (names,))
+        P = {}
+        for (a, b, nm) in toks:
+            P.setdefault(nm, []).append((a, b))
+        pos = lambda nm, k=0: P[nm][k][0]
+        ln = lambda nm, k=0: line(start + P[nm][k][0])
+        # every use of the dict and of the lock is one of the sites above
+        cache_calls = [c for c in re.findall(r"(\w+)\s*\(\s*cache\b", body) if c != "if"]
+        if sorted(cache_calls) != sorted(["PyDict_GetItemRef", "PyObject_CallMethod", "PyDict_GetItem", "PyDict_SetItem"]):
+            raise U("calls on the cache dict: %r" % (cache_calls,))
+        if len(re.findall(r"\bcache\b", body)) != 9:
+            raise U("`cache` is mentioned %d times (expected 9)" % len(re.findall(r"\bcache\b", body)))
+        lock_calls = re.findall(r"(PyThread_\w+)\s*\(", body)
+        if lock_calls != ["PyThread_allocate_lock", "PyThread_free_lock", "PyThread_acquire_lock", "PyThread_release_lock"]:
+            raise U("PyThread_* calls: %r" % (lock_calls,))
+        if re.search(r"\b(goto|while|for|do|switch|longjmp)\b", body):
+            raise U("loop/goto in ffi_init_once")
+        if len(re.findall(r"PyObject_Call\w*\s*\(", body)) != 2 or len(re.findall(r"\bfunc\b", body)) != 4:
+            raise U("calls of Python objects / uses of func changed")
+        # block structure
+        e_tupnull = _block_end(body, P["tupnull"][0][1] - 1)
+        if not (pos("tupnull") < pos("alloclock") < pos("packfalse") < pos("setdefault") < e_tupnull < pos("res_tup1")):
+            raise U("the setdefault is not inside `if (tup == NULL) {...}`")
+        e_test = _block_end(body, P["test_tup"][0][1] - 1)
+        if not (pos("test_tup") < pos("return_res", 0) < e_test < pos("begin_allow")):
+            raise U("`return res` is not inside the `== Py_True` test before the lock")
+        if "return" in body[pos("tupnull"):e_tupnull].replace("return NULL;", ""):
+            raise U("a return other than `return NULL;` in the creation block")
+        e_then = _block_end(body, P["test_x"][0][1] - 1)
+        if e_then - 1 != pos("else") or not (pos("test_x") < pos("res_x1") < e_then):
+            raise U("if (x != NULL && ...) {...} else {...} shape")
+        e_else = _block_end(body, P["else"][0][1] - 1)
+        e_resnn = _block_end(body, P["resnotnull"][0][1] - 1)
+        if not (pos("else") < pos("callf") < pos("resnotnull") < pos("packtrue") < pos("setitem") < e_resnn <= e_else - 1
+                < pos("release")):
+            raise U("else branch: call f, then store under `if (res != NULL)`")
+        then_txt = body[P["test_x"][0][1]:e_then - 1]
+        if re.search(r"\w+\s*\(", re.sub(r"PyTuple_GET_ITEM\(|Py_INCREF\(", "", then_txt)):
+            raise U("unexpected call in the then-branch after the lock")
+        # depth of release / final return: directly in the function body
+        depth = lambda p_: body.count("{", 0, p_) - body.count("}", 0, p_)
+        if depth(pos("release")) != 1 or depth(pos("return_res", 1)) != 1 or depth(pos("acquire")) != 1 \
+                or depth(pos("getitem")) != 1 or depth(pos("test_x")) != 1 or depth(pos("getitemref")) != 1 \
+                or depth(pos("tupnull")) != 1 or depth(pos("test_tup")) != 1:
+            raise U("a call site moved into a nested block")
+        tail = body[P["return_res"][1][1]:].strip()
+        if tail != "}":
+            raise U("code after the final `return res;`")
+        locked = body[P["acquire"][0][1]:pos("release")]
+        nrl = not re.search(r"\breturn\b", locked)
+        facts["gen_c_no_return_while_locked"] = (nrl, "ffi_obj.c:%d-%d no `return` between PyThread_acquire_lock and "
+                                                 "PyThread_release_lock" % (ln("acquire"), ln("release")) if nrl else
+                                                 "a `return` between acquire (line %d) and release (line %d)"
+                                                 % (ln("acquire"), ln("release")))
+        facts["gen_c_lock_is_thread_lock"] = (True, "ffi_obj.c:%d lock = PyThread_allocate_lock() (new locks are unlocked), "
+                                              "stored in the (False, capsule) tuple" % ln("alloclock"))
+        prog = [("IRead", 2, 1), ("ISetDefault", 2), ("IIfDone", 3, 4), ("IRetX",), ("IAcquire", 5),
+                ("IRead", 6, 9), ("IIfDone", 7, 9), ("IRelease", 8), ("IRetX",), ("ICallF", 10, 13),
+                ("IStore", 11), ("IRelease", 12), ("IRetResult",), ("IRelease", 14), ("IRaise", "FExn")]
+        srcs = ["%d PyDict_GetItemRef(cache, tag, &tup); tup == NULL -> 1" % ln("getitemref"),
+                "%d-%d new lock, tup = cache.setdefault(tag, (False, lock))" % (ln("alloclock"), ln("setdefault")),
+                "%d if (PyTuple_GET_ITEM(tup, 0) == Py_True)" % ln("test_tup"),
+                "%d return res  (= tup[1], line %d)" % (ln("return_res", 0), ln("res_tup1")),
+                "%d-%d Py_BEGIN_ALLOW_THREADS PyThread_acquire_lock(lock, WAIT_LOCK)" % (ln("begin_allow"), ln("end_allow")),
+                "%d x = PyDict_GetItem(cache, tag); x == NULL -> else branch" % ln("getitem"),
+                "%d x != NULL && PyTuple_GET_ITEM(x, 0) == Py_True" % ln("test_x"),
+                "%d PyThread_release_lock(lock) on the path res = x[1] (line %d)" % (ln("release"), ln("res_x1")),
+                "%d return res" % ln("return_res", 1),
+                "%d res = PyObject_CallFunction(func, \"\")" % ln("callf"),
+                "%d-%d PyDict_SetItem(cache, tag, (True, res)) under if (res != NULL)" % (ln("packtrue"), ln("setitem")),
+                "%d PyThread_release_lock(lock)" % ln("release"),
+                "%d return res" % ln("return_res", 1),
+                "%d PyThread_release_lock(lock) with res == NULL" % ln("release"),
+                "%d return NULL (res)" % ln("return_res", 1)]
+        cgen.update(prog=prog, srcs=srcs, origin="regenerated from src/c/ffi_obj.c:%d-%d" % (line(start), line(end)))
+    except U as e:
+        cgen.update(prog=[], srcs=[], origin="EMPTY (extraction failed: %s)" % e, status="fallback: c_prog_gen: %s" % e)
+        facts.setdefault("gen_c_no_return_while_locked", (False, "extraction failed: %s" % e))
+        facts.setdefault("gen_c_lock_is_thread_lock", (False, "extraction failed: %s" % e))
+    return cgen, facts
 
 
 _PY_PROG = {}
@@ -219,18 +515,34 @@ def py_prog():
             fn = py2coq.find_function(py2coq.parse_source(path), "init_once", cls="FFI")
             prog, srcs = flatten(fn)
             _PY_PROG.update(prog=prog, srcs=srcs, status=None,
-                            origin="regenerated from src/cffi/api.py FFI.init_once")
+                            origin="regenerated from src/cffi/api.py FFI.init_once, FFI.__init__, lock.py and "
+                                   "src/c/ffi_obj.c ffi_init_once")
         except (py2coq.Untranslatable, OSError, SyntaxError) as e:
             _PY_PROG.update(prog=list(SNAPSHOT_PROG), srcs=list(SNAPSHOT_SRC), status="fallback: %s" % e,
-                            origin="SNAPSHOT (translation of the current source failed)")
+                            origin="SNAPSHOT of py_prog (translation of the current source failed)")
+        cgen, cfacts = c_extract()
+        facts = py_init_facts()
+        facts.update(cfacts)
+        _PY_PROG.update(cgen=cgen, facts=facts)
     return _PY_PROG
+
+
+def c_prog():
+    """the step program the C harness follows: the regenerated one, or the recorded one when extraction failed
+    (the failure itself is reported as a broken obligation through Gen.v)"""
+    g = py_prog()
+    return [tuple(i) for i in g["cgen"]["prog"]] or list(W.C_PROG)
 
 
 def regen(ctx):
     g = py_prog()
-    st = py2coq.write_if_changed(os.path.join(vlib.COQ, "C26", "Gen.v"), gen_text(g["prog"], g["srcs"], g["origin"]))
-    ctx.translator("C26/Gen.v", g["status"] or st)
+    st = py2coq.write_if_changed(os.path.join(vlib.COQ, "C26", "Gen.v"),
+                                 gen_text(g["prog"], g["srcs"], g["origin"], g["cgen"], g["facts"]))
+    status = g["status"] or g["cgen"]["status"] or st
+    ctx.translator("C26/Gen.v", status)
     ctx.extra["py_prog_equals_snapshot"] = (g["prog"] == SNAPSHOT_PROG)
+    ctx.extra["c_prog_gen_equals_recorded"] = (g["cgen"]["prog"] == list(W.C_PROG))
+    ctx.extra["regenerated_facts"] = {k: {"value": v[0], "from": v[1]} for k, v in g["facts"].items()}
     # the model evaluation (coq_mismatches) loads Gen.vo: keep it in step with Gen.v even when the proof
     # re-check is skipped (--replay) or fails later in Proofs.v
     ok, log = vlib.coq_make(["C26/Gen.vo"])
@@ -279,6 +591,23 @@ def generate(ctx):
             if (n, d) not in seen:
                 seen.add((n, d))
                 cases.append(dict(impl="c", n=n, decisions=list(d)))
+    # every tag: tags of every hashable kind (W.TAGS: dunder / attribute-name strings, '', None, ints, bools, tuples,
+    # floats, bytes, frozenset, Ellipsis, a type, a builtin).  (a) unscheduled: three calls in sequence on an untouched
+    # new FFI object of each implementation; (b) scheduled: both 1-thread schedules and two 2-thread schedules on the
+    # instrumented in-line FFI, and decision lists on the C FFI for the tags that can carry a scheduling point
+    two = W.enum_maximal(prog, 2)
+    one = W.enum_maximal(prog, 1)
+    for k in range(len(W.TAGS)):
+        for impl in ("py", "c"):
+            cases.append(dict(impl=impl, n=3, plain=True, tagidx=k, tag=repr(W.TAGS[k])))
+        if k == 0:
+            continue
+        for n, s in [(1, s) for s in one] + [(2, s) for s in rng.sample(two, min(2, len(two)))]:
+            cases.append(dict(impl="py", n=n, sched=s, tagidx=k, tag=repr(W.TAGS[k])))
+        if type(W.TAGS[k]) in (str, int, tuple, float, bytes, frozenset):
+            for n in (1, 2):
+                cases.append(dict(impl="c", n=n, decisions=[rng.randrange(64) for _ in range(10 * n + 4)],
+                                  tagidx=k, tag=repr(W.TAGS[k])))
     # the same free-choice driver on the Python implementation with 4 threads (beyond the exhaustive bound)
     for _ in range(ctx.n(40, 800)):
         cases.append(dict(impl="py", n=4, decisions=[rng.randrange(64) for _ in range(48)]))
@@ -399,8 +728,8 @@ def evaluate(ctx, cases):
         cases = [dict({k: v for k, v in c.items() if k not in ("observed", "sched_followed", "impl_observation")},
                       lenient=True) for c in cases if "impl" in c]
     g = py_prog()
-    progs = dict(py=g["prog"], c=W.C_PROG)
-    coq_prog = dict(py="py_prog", c="c_prog")
+    progs = dict(py=g["prog"], c=c_prog())
+    coq_prog = dict(py="py_prog", c="c_prog_gen" if g["cgen"]["prog"] else "c_prog")
     for impl in ("py", "c"):
         mine = [c for c in cases if c["impl"] == impl]
         if not mine:
@@ -442,6 +771,21 @@ def evaluate(ctx, cases):
                                                     events=[e[:3] for e in r["events"]][:80])),
                               "init_once (%s implementation, %d threads): %s" % (
                                   "Python api.py" if impl == "py" else "C ffi_obj.c", n, "; ".join(bad[:3])))
+                continue
+            if c.get("tagidx") is not None:
+                ctx.hist("tag_kinds", "%s/%s/%s" % (impl, "plain" if c.get("plain") else "scheduled",
+                                                    type(W.TAGS[c["tagidx"]]).__name__))
+            if c.get("plain"):
+                # the property holds (predicates above); the run must also be the model's sequential schedule:
+                # f runs in calls 0 (raises) and 1 (returns 101), call 2 returns 101 without running f
+                starts = [e[0] for e in r["events"] if e[1] == "fenter"]
+                if r["outcomes"] != [[3], [1, 101], [1, 101]] or starts != [0, 1]:
+                    ctx.mismatch(dict(c, observed=dict(outcomes=r["outcomes"], f_started_in_calls=starts)),
+                                 "three sequential calls with tag %s gave %r, f ran in calls %r" % (
+                                     c.get("tag"), r["outcomes"], starts),
+                                 "C26.Model.%s sequential schedule vs implementation" % coq_prog[impl])
+                else:
+                    ctx.nontrivial((impl, "plain", c["tagidx"]))
                 continue
             if r["status"] != "ok":
                 ctx.mismatch(dict(c, observed=dict(status=r["status"], detail=r["detail"], sched=r["sched"])),
@@ -545,7 +889,9 @@ def check_counts(ctx, cases):
 
 
 def run(ctx):
-    ctx.cov["rule"] = ("py: every maximal schedule of the regenerated model for 1 and 2 threads and for 3 threads (quick: up "
+    ctx.cov["rule"] = ("tags: every kind in c26_worker.TAGS, unscheduled (3 sequential calls on untouched FFI objects, both "
+                       "implementations) and scheduled (py: both 1-thread and two 2-thread schedules per tag; c: tags whose "
+                       "type can be subclassed). py: every maximal schedule of the regenerated model for 1 and 2 threads and for 3 threads (quick: up "
                        "to renaming of threads; thorough: all), replayed on the real FFI.init_once with the cache dict, the "
                        "per-tag lock and f as scheduling points; the number of schedules is checked against Coq's count_max; "
                        "plus random free-choice runs with 4 threads. c: random decision lists for 1-4 threads on "
@@ -555,10 +901,13 @@ def run(ctx):
                        "raising f or a thread that saw the entry pending; distinct by (implementation, threads, schedule).")
     ctx.assumptions += [
         "py_prog is produced by the shape-matching driver flatten() in tools/props/c26.py (trusted, ~120 lines); "
-        "c_prog is a hand model of ffi_obj.c tied by this run's schedules only",
+        "c_prog_gen by the ordered call-site extractor c_extract() (trusted, ~130 lines; a template, not a C parser) and "
+        "must equal Model.v c_prog; the constructor facts (cache created empty, never re-bound, thread locks) by "
+        "py_init_facts()/c_extract(), all fail-closed",
         "atomicity: each dict operation / lock operation is one atomic step (GIL; tag with built-in or harness hash)",
-        "termination of every call additionally needs weak fairness of the thread scheduler and termination of f "
-        "(runtime hypotheses; the model proves no-deadlock and a bound on each call's own steps)",
+        "termination: C26_runs_bounded / C26_maximal_run_all_finished need no fairness hypothesis; the only step that "
+        "is not the implementation's own is 'f returns or raises' (an f that never comes back is the property's 'unless')",
+        "a freshly allocated _thread / PyThread lock is unlocked (CPython)",
         "allocation failures (MemoryError paths of ffi_obj.c) are not modelled",
         "tags: cache[tag] and the lock stored in it are the only data a call touches (enforced syntactically by the "
         "translator driver for api.py, by inspection for ffi_obj.c); two-tag runs on the real Python implementation "
@@ -566,8 +915,8 @@ def run(ctx):
     cases = generate(ctx)
     # stage 1: everything up to 2 threads and the C runs; stage 2 (3 and 4 threads on the Python implementation)
     # only when stage 1 found no violation (a broken implementation is reported after seconds, not minutes)
-    first = [c for c in cases if c["n"] <= 2 or c["impl"] == "c"]
-    rest = [c for c in cases if not (c["n"] <= 2 or c["impl"] == "c")]
+    first = [c for c in cases if c["n"] <= 2 or c["impl"] == "c" or c.get("plain")]
+    rest = [c for c in cases if not (c["n"] <= 2 or c["impl"] == "c" or c.get("plain"))]
     evaluate(ctx, first)
     import time as _t
     budget = 110 if not ctx.thorough else 540       # seconds of wall time after which optional phases are skipped
@@ -595,21 +944,43 @@ def run(ctx):
 
 
 MANIFEST = dict(
-    technique="Coq proof (inductive invariant of an N-thread transition system, all schedules) over a step program "
-              "regenerated from api.py + exhaustive schedule replay on the real Python and C implementations",
-    text="Proof: for the step program regenerated from FFI.init_once and for the hand model of ffi_init_once, for any number "
-         "of threads and every schedule: at most one f runs at a time, at most one completes normally, every normal return "
-         "is the cached result which never changes, no f starts once cached, only a call's own f makes it raise and such a "
-         "call never writes the cache, no ill-typed state is reached, every unfinished call can step or waits for a lock "
-         "whose holder can step (no deadlock), and each call makes a bounded number of own steps; an FFI object with many "
-         "tags is the product of per-tag states and every theorem holds for every tag (C26_every_tag). Termination of "
-         "every call ('no call blocks forever unless an f does') is proved up to scheduler fairness and termination of f, "
-         "which are not formalised. Tie: regeneration of the Python program on every run (a changed program re-runs the "
-         "proofs); every maximal model schedule of <= 2 threads (quick: a sample of the 3-thread ones, thorough: all 23430) "
-         "replayed on the real Python implementation (count checked in Coq); a model-free exhaustive search of the real "
-         "implementation's own 2-thread schedule tree and sampled 3/4-thread and two-tag trees with the property decided "
-         "on the implementation; controlled and random schedules on the C implementation.",
-    note="Trusted: Coq kernel; the flattening driver; hand model c_prog (tied by schedule replay); atomicity of dict and lock "
-         "operations under the GIL. Termination of calls needs scheduler fairness and terminating f (hypotheses). "
-         "Theorems closed under the global context.",
+    technique="Coq proof (inductive invariant of an N-thread transition system, all schedules; rank-sum termination "
+              "measure; result invariant for every step program) over step programs and constructor facts regenerated "
+              "from api.py and ffi_obj.c + exhaustive schedule replay on the real Python and C implementations with tags "
+              "of every hashable kind",
+    text="Proved, for any number of threads and every schedule, for p = py_prog (regenerated from FFI.init_once) or "
+         "p = c_prog (which the regenerated c_prog_gen must equal): C26_safety (at most one f runs at a time, at most one "
+         "completes normally, every normal return is the cached value, no f runs once cached, only a call's own f makes it "
+         "raise, no ill-typed state), C26_done_is_final, C26_raiser_never_stores, C26_no_deadlock (an unfinished call can "
+         "step or waits for a lock whose holder can step). Termination without a fairness hypothesis: "
+         "C26_total_rank_decreases (every step of any of n callers decreases the sum of their ranks), C26_runs_bounded "
+         "(every run from init has at most n*(2|p|+2) steps; f returning or raising is one of the steps, so only an f that "
+         "never comes back can keep a run from ending), C26_quiescent_all_finished and C26_maximal_run_all_finished (when "
+         "no caller can step, every call has returned the cached value or re-raised its own f's exception); "
+         "C26_own_step_decreases_rank is the one-step lemma formerly called C26_bounded_steps. Whose result: "
+         "C26_result_is_f_result (for EVERY step program: if all values f returns satisfy R, so do the cached value and "
+         "every returned value) and C26_result_is_the_completion (with the ghost history h of completed f's: cached / "
+         "returned r implies h = [r]). Every tag: product of per-tag states (C26_every_tag, C26_safety_every_tag). The two "
+         "implementations themselves: C26_impl_safety, C26_impl_safety_every_tag, C26_impl_maximal_run_all_finished "
+         "quantify over ImplPy/ImplC with the step program AND the initial state taken from Gen.v (C26_impl_init_is_empty: "
+         "the constructor leaves no entry for any tag and new locks are unlocked). Regenerated on every run (fail closed, "
+         "a false fact or an empty c_prog_gen breaks Proofs3.v): py_prog (statement-by-statement flattening), c_prog_gen "
+         "(ordered call-site extractor over ffi_init_once with block-structure checks), gen_py_cache_init_empty "
+         "(`self._init_once_cache = {}` in FFI.__init__), gen_py_cache_assigned_once, gen_py_lock_is_thread_lock, "
+         "gen_c_cache_init_empty (NULL then PyDict_New()), gen_c_lock_is_thread_lock, gen_c_no_return_while_locked. A "
+         "regenerated program that differs from the one the invariant is indexed by FAILS the proofs (pcinv is indexed by "
+         "pc), it is not re-proved. Correspondence only: every maximal model schedule of <= 2 threads (quick: 500 of the "
+         "3-thread ones, thorough: all 23430) replayed on the real Python implementation whose instrumented cache starts "
+         "with what the constructor put there (count checked in Coq); tags of 37 kinds (dunder and attribute-name strings, "
+         "'', None, ints, bools, tuples, floats, bytes, frozenset, Ellipsis, a type, a builtin): unscheduled sequential "
+         "calls on untouched FFI objects of both implementations and scheduled 1-/2-thread runs; model-free search of the "
+         "real implementation's own 2-thread schedule tree and sampled 3/4-thread and two-tag trees; controlled and random "
+         "schedules on the C implementation (lock acquire/release not observable there). 'Returns that completion's "
+         "result' is also decided on the implementation by predicates().",
+    note="Trusted: Coq kernel; the flattening driver and the C call-site extractor (a template over ordered regex sites: "
+         "it checks order, nesting and absence of other cache/lock/func uses, it does not parse C); atomicity of one dict / "
+         "lock operation per step (GIL) - stated in Props.v's header, not a theorem hypothesis; a new _thread / PyThread "
+         "lock is unlocked. Not modelled: allocation-failure returns of ffi_obj.c, PyDict_SetItem failing after a normal f. "
+         "INewX/ISetDefaultX are in the instruction set and covered by C26_result_is_f_result and the termination measure "
+         "but by no safety theorem (no modelled program uses them). Theorems closed under the global context.",
     design_ref="DESIGN.md §4 C26")
